@@ -20,10 +20,10 @@ from . import env
 def fingerprints(argv):
     """child mode: print {seed: fingerprint} for PROFILE and the seeds given"""
     from . import gen, world
-    prof = argv[0]
+    prof, _, tier = argv[0].partition(":")
     out = {}
     for s in argv[1:]:
-        res = world.run_plan(gen.gen_plan(prof, int(s)))
+        res = world.run_plan(gen.gen_plan(prof, int(s), tier or "quick"))
         out[s] = res["fingerprint"]
     print("FPS " + json.dumps(out, sort_keys=True))
     return 0
